@@ -21,6 +21,11 @@ def main(argv):
     except common.HarnessError as e:
         print("HARNESS-ERROR: %s" % e)
         rc = common.EXIT_HARNESS
+    except Exception as e:  # noqa
+        # a crash of the machinery is never a verdict about the property
+        import traceback
+        print("HARNESS-ERROR: the check raised %s: %s\n%s" % (type(e).__name__, e, traceback.format_exc()[-2500:]))
+        rc = common.EXIT_HARNESS
     sys.stdout.flush()
     return rc
 
